@@ -42,6 +42,7 @@ class SatSystem(System):
             cfgs.append(dict(kind="cbf", n=n, p=p, m=f.number_bits, k=f.number_hashes, depth=depth, cost=30000))
         for w, d in ((1, 1), (2, 2), (3, 2)):
             cfgs.append(dict(kind="cms", width=w, depth_=d, depth=depth, cost=30000))
+        cfgs.append(dict(kind="cms", width=2, depth_=2, depth=depth, qt="mean", cost=30000))
         if seed:
             r = seed % len(cfgs)
             cfgs = cfgs[r:] + cfgs[:r]
@@ -59,7 +60,10 @@ class SatSystem(System):
         keys, hf = self._alpha(cfg)
         if cfg["kind"] == "cbf":
             return CountingBloomFilter(cfg["n"], cfg["p"], hash_function=hf)
-        return CountMinSketch(width=cfg["width"], depth=cfg["depth_"], hash_function=hf)
+        s = CountMinSketch(width=cfg["width"], depth=cfg["depth_"], hash_function=hf)
+        if cfg.get("qt"):
+            s.query_type = cfg["qt"]
+        return s
 
     def _positions(self, cfg, key):
         keys, hf = self._alpha(cfg)
@@ -101,6 +105,8 @@ class SatSystem(System):
         for p in pos:
             c[p] = min(I32_MAX, c[p] + n)
         m["total"] = min(I64_MAX, m["total"] + n)
+        if cfg.get("qt") == "mean":
+            return {sum(c[p] for p in pos) // len(pos)}
         return {min(c[p] for p in pos)}
 
     def _ref_remove(self, cfg, m, key, n):
@@ -121,6 +127,8 @@ class SatSystem(System):
         for p in pos:
             c[p] = max(I32_MIN, c[p] - n)
         m["total"] = max(I64_MIN, m["total"] - n)
+        if cfg.get("qt") == "mean":
+            return {sum(c[p] for p in pos) // len(pos)}
         return {min(c[p] for p in pos)}
 
     def apply(self, cfg, st, ev, choices=None):
@@ -254,7 +262,7 @@ class SatSystem(System):
                     got = self._impl_cells(cfg, recv)
                     if got != want or recv.elements_added != wt:
                         bad("sat.join_clamps", {"expected": want, "obs": got, "total": recv.elements_added, "expected_total": wt})
-                    if call(lambda: CountMinSketch.frombytes(bytes(recv), hash_function=hf))[0] != "ok":
+                    if call(lambda: CountMinSketch.frombytes(bytes(recv), hash_function=hf))[0] != "ok":  # noqa: E501
                         bad("sat.state_reloadable", {"after": "join"})
         return out
 
